@@ -575,6 +575,12 @@ pub fn run_ops_in(sid: &str, tag: &Value, ops: &[Op], out: &mut dyn Write, opens
         writeln!(out, "{}", ev).unwrap();
         n += 1;
         if failed {
+            // the sequence as a whole produced no header: say so where its build would have been
+            // (rebuild and paired sessions judge the outcome of the whole sequence)
+            if ops.iter().any(|o| matches!(o, Op::Build)) {
+                writeln!(out, "{}", json!({"sid": sid, "op": "BBuild", "r": "err", "built": {"k": "err", "ek": "a call before build failed"}})).unwrap();
+                n += 1;
+            }
             break;
         }
     }
@@ -854,7 +860,23 @@ pub fn random_addr(rng: &mut Rng, fam: u64) -> v2::Addresses {
     }
 }
 
+/// Byte strings made of the protocol's own vocabulary: the v2 signature, a whole binary header,
+/// a text header line, the signature in the middle of other bytes.
+pub fn vocabulary_bytes(rng: &mut Rng) -> Vec<u8> {
+    let sig = ppp::v2::PROTOCOL_PREFIX.to_vec();
+    match rng.below(5) {
+        0 => sig,
+        1 => { let mut v = sig; v.extend_from_slice(&[0x21, 0x11, 0, 12, 1, 2, 3, 4, 5, 6, 7, 8, 0, 9, 1, 0]); v }
+        2 => b"PROXY TCP4 1.2.3.4 5.6.7.8 9 10\r\n".to_vec(),
+        3 => { let mut v = vec![0x41, 0x42]; v.extend_from_slice(&sig); v.push(0x43); v }
+        _ => { let mut v = sig; v.truncate(11); v }
+    }
+}
+
 fn blob(rng: &mut Rng) -> Vec<u8> {
+    if rng.chance(1, 9) {
+        return vocabulary_bytes(rng);
+    }
     let len = match rng.below(12) {
         0 => 0,
         1 => 1,
@@ -1148,6 +1170,22 @@ pub fn generate_builder(name: &str, count: usize, rng: &mut Rng, out: &mut dyn W
         }
         // pairs of sessions that differ only in reservations / batching
         "bpairs" => {
+            // pairs that cross the writer's size limit with an explicit length in force: one at a
+            // time versus a vector versus a lazy adaptor must succeed or fail alike
+            for i in 0..(count / 8).max(2) {
+                let ctor = random_ctor(rng, false);
+                let head = vec![ctor.clone(), Op::SetLen(Some(*rng.pick(&[0u16, 7, 65535]))), Op::Write(Payload::Slice(vec![0x33; *rng.pick(&[65535usize, 65530, 65500])]))];
+                let ps: Vec<Payload> = vec![Payload::Slice(vec![1; *rng.pick(&[1usize, 10, 30, 60])]), Payload::Slice(vec![2; 1 + rng.below(40) as usize]), Payload::Int { ty: "u8".into(), neg: false, mag: vec![3] }];
+                let mut a = head.clone();
+                a.extend(ps.iter().cloned().map(Op::Write));
+                a.push(Op::Build);
+                let mut b = head.clone();
+                b.push(Op::Writes(ps.clone(), i % 2 == 0));
+                b.push(Op::Build);
+                let pid = 100000 + i;
+                n += run_ops(&format!("bpairs-big-{}", i), &json!({"g": "bpairs", "pair": pid, "side": "a"}), &a, out);
+                n += run_ops_in(&format!("bpairs-big-{}", i), &json!({"g": "bpairs", "pair": pid, "side": "b"}), &b, out, false);
+            }
             for i in 0..count {
                 let ctor = random_ctor(rng, false);
                 let k = rng.range(1, 4) as usize;
